@@ -65,7 +65,9 @@ func c05Transport(c *C05Case, o *C05Obs) (out [][2]string) {
 			kind = "obj"
 		}
 	}
-	if c.In == "query" && len(c.Frag.Query) == 0 && c.definedCell(kind) {
+	// (an exploded object with an additionalProperties schema takes every key of the query as a member:
+	// for it no key is "of another parameter")
+	if c.In == "query" && len(c.Frag.Query) == 0 && c.definedCell(kind) && !(kind == "obj" && c.Schema.Ap != nil) {
 		// an absent parameter is absent whatever else the query carries
 		c.noise = true
 		o2 := runC05(c)
